@@ -110,7 +110,8 @@ pub fn cmd_builder(v: &Value) -> Value {
             .and_then(|e| e.as_array())
             .map(|a| a.iter().map(|x| bexpr(x, &vars)).collect())
             .unwrap_or_default();
-        out["solve"] = guarded_pub(|| match b.clone().solve_with(Auto) {
+        let (b2, vars2, spec2, obj2) = (b.clone(), vars.clone(), spec.clone(), obj.clone());
+        out["solve"] = timed(move || { let (b, vars, spec, obj) = (b2, vars2, &spec2, obj2); match b.clone().solve_with(Auto) {
             Ok(s) => {
                 let vals: Vec<Value> = vars
                     .iter()
@@ -137,7 +138,7 @@ pub fn cmd_builder(v: &Value) -> Value {
             Err(rooc::BuilderError::Linearization(e)) => {
                 json!({"ok": false, "kind": "Linearization", "msg": e.to_string()})
             }
-        });
+        }});
     }
     out
 }
@@ -145,15 +146,15 @@ pub fn cmd_builder(v: &Value) -> Value {
 /// job: {"cmd":"pipe","src":text,"solver":"auto"|"milp"|"none"}
 pub fn cmd_pipe(v: &Value) -> Value {
     let src = v["src"].as_str().unwrap().to_string();
-    let solver = v["solver"].as_str().unwrap_or("auto");
-    guarded_pub(|| {
+    let solver = v["solver"].as_str().unwrap_or("auto").to_string();
+    timed(move || {
         let mut pipes: Vec<Box<dyn Pipeable>> = vec![
             Box::new(CompilerPipe::new()),
             Box::new(PreModelPipe::new()),
             Box::new(ModelPipe::new()),
             Box::new(LinearModelPipe::new()),
         ];
-        match solver {
+        match solver.as_str() {
             "auto" => pipes.push(Box::new(AutoSolverPipe::new())),
             "milp" => pipes.push(Box::new(MILPSolverPipe::new())),
             _ => {}
